@@ -774,7 +774,10 @@ def chunk_size_table(ctx, rid):
             continue
         c = bytes([b_])
         fields += [c, b"1" + c, c + b"1", b"1" + c + b"1"]
+        # every byte value inside a quoted chunk-ext value, plain and behind a backslash (quoted-pair)
+        fields += [b'5;a="x' + c + b'y"', b'5;a="x\\' + c + b'y"']
     fields += [b"1\r", b"\r1", b"1\n", b"\n1"]
+    fields += [b'5;a="\nX"', b'5;a="x\ny"', b'5;a="\\\nX"', b'5;a="x\ry"', b'5;a="\\\rX"', b'5;a="unterminated', b'5;a="x";b="y"', b'5;a=""']
     rows = []
     bad = 0
     seen = set()
